@@ -48,6 +48,12 @@ def gen_cases(tier, seed):
         k += 1
         cases.append({"id": "H/%s/%s/%s/%d" % (kind, pos, state, rows), "kind": kind, "pos": pos, "rgpos": "later", "state": state, "nrg": 2, "mode": "append",
                       "seed": 2100 + k, "rows": 12, "new_rows": rows, "reuse_handle": True})
+    # the append is given as an ITERABLE of frames (documented for ParquetFile.write_row_groups): the source breaks down after k frames, or a
+    # later frame lacks a column - whatever the exception, it is a refused operation
+    for kind, state, after in itertools.product(["append_iterable_source_fails", "append_iterable_frame_lacks_column"], STATES, [0, 1, 2]):
+        k += 1
+        cases.append({"id": "IT/%s/%s/%d" % (kind, state, after), "kind": kind, "pos": "middle", "rgpos": "later", "state": state, "nrg": 2, "mode": "append",
+                      "seed": 2500 + k, "rows": 20, "frames_before_failure": after})
     # the existing dataset has a history: row groups were removed from it earlier, so the part numbers in use have gaps
     for kind, pos, state, gap in itertools.product(["append_unencodable_value", "none_in_required", "na_in_required_int", "unknown_codec", "append_diff_columns"],
                                                    ["first", "last"], ["hive", "hive_part"], [[1], [0, 2], [0]]):
@@ -209,14 +215,23 @@ def run_case(case):
                             pf.to_pandas(filters=flt)
                     returned = True
                 else:
-                    bad, kw = make_bad(case, new, rng)
+                    bad, kw = make_bad(case, new, rng) if not kind.startswith("append_iterable_") else (new, {})
                     kws = dict(base_kw)
                     kws.update(kw)
                     if case["mode"] == "append":
                         kws["append"] = True
                     if case["nrg"] > 1:
                         kws["row_group_offsets"] = max(1, n_new // 2)
-                    if case.get("reuse_handle"):
+                    if kind.startswith("append_iterable_"):
+                        def frames_():
+                            for j_ in range(case["frames_before_failure"]):
+                                yield base_frame(rng, 6, 10 ** 5 + 10 * j_, part, case["pos"])
+                            if kind == "append_iterable_source_fails":
+                                raise ConnectionResetError("the source of the frames broke down")
+                            yield base_frame(rng, 6, 10 ** 6, part, case["pos"]).drop(columns=["a"])
+                        counters["appends_from_iterables"] = 1
+                        fastparquet.ParquetFile(path).write_row_groups(frames_())
+                    elif case.get("reuse_handle"):
                         kept = fastparquet.ParquetFile(path)
                         bad_r = bad.reset_index(drop=True)
                         kept.write_row_groups(bad_r, row_group_offsets=[0, max(1, n_new // 2)])
@@ -327,4 +342,4 @@ def run_case(case):
 
 
 def required(tier):
-    return {"rejected": 300, "snapshots_compared": 300, "datasets_with_removed_row_groups": 20}
+    return {"rejected": 300, "snapshots_compared": 300, "datasets_with_removed_row_groups": 20, "appends_from_iterables": 12}
